@@ -11,8 +11,8 @@ EXTENDS Integers, Sequences, FiniteSets, TLC, Json, IOUtils, TLCExt
 
 Cfg == JsonDeserialize(IOEnv.GEN_CFG)     \* [classes: seq of [mv, py3], budget, export, rich]
 
-VARIABLES cls, buf, tok, wstack, wrefs, wstr, left, done
-vars == <<cls, buf, tok, wstack, wrefs, wstr, left, done>>
+VARIABLES cls, buf, tok, wstack, wrefs, wstr, left, done, dupl
+vars == <<cls, buf, tok, wstack, wrefs, wstr, left, done, dupl>>
 
 MV  == cls.mv
 PY3 == cls.py3 = 1
@@ -22,6 +22,7 @@ TB(kind, bs)   == [k |-> kind, n |-> Len(bs), b |-> bs]
 LE32(n) == <<n % 256, (n \div 256) % 256, (n \div 65536) % 256, (n \div 16777216) % 256>>
 LE16(n) == <<n % 256, n \div 256>>
 
+Reduced == Cfg.rich = 2
 StrKind == IF PY3 THEN "bytes" ELSE "str8"
 TxtKind == IF PY3 THEN "text" ELSE "unicode"
 
@@ -68,13 +69,17 @@ Strings ==
               ELSE {})
   \cup (IF MV >= 3 THEN {Leaf(116, LE32(2) \o <<195, 169>>, TB("text", <<195, 169>>), TRUE)} ELSE {})        \* 't' interned unicode
   \cup (IF ~PY3 /\ Cfg.rich = 1 THEN {Leaf(115, LE32(2) \o <<195, 169>>, TB("str8", <<195, 169>>), TRUE)} ELSE {})   \* py2 bytes that look like UTF-8
-Interned2 == IF ~PY3 /\ MV \in {1, 2} THEN {<<97>>, <<98, 99>>} ELSE {}       \* 't' strings of Python 2: enter the string table
+Interned2 == IF ~PY3 /\ MV \in {1, 2} /\ ~Reduced THEN {<<97>>, <<98, 99>>} ELSE {}       \* 't' strings of Python 2: enter the string table
 
-Leaves == Singletons \cup Ints \cup Floats \cup Strings
+(* reduced alphabet (Cfg.rich = 2) for deeper sharing patterns: three leaves, three containers *)
+ReducedLeaves == {Leaf(78, <<>>, T0("none"), FALSE), Leaf(105, <<7, 0, 0, 0>>, IntTok(0, <<7>>), TRUE),
+                  Leaf(115, LE32(1) \o <<97>>, TB(StrKind, <<97>>), TRUE)}
+Leaves == IF Reduced THEN ReducedLeaves ELSE Singletons \cup Ints \cup Floats \cup Strings
 
 (* hashable leaves may be set elements / dict keys *)
-Containers == {"tuple", "list"} \cup (IF MV >= 4 THEN {"stuple"} ELSE {})
-              \cup (IF MV >= 2 THEN {"set", "frozenset"} ELSE {}) \cup {"dict"}
+Containers == IF Reduced THEN {"tuple", "list"} \cup (IF MV >= 2 THEN {"frozenset"} ELSE {})
+              ELSE {"tuple", "list"} \cup (IF MV >= 4 THEN {"stuple"} ELSE {})
+                   \cup (IF MV >= 2 THEN {"set", "frozenset"} ELSE {}) \cup {"dict"}
 KindTok(c) == IF c = "stuple" THEN "tuple" ELSE c
 CodeOf(c) == CASE c = "tuple" -> 40 [] c = "stuple" -> 41 [] c = "list" -> 91 [] c = "set" -> 60 [] c = "frozenset" -> 62 [] c = "dict" -> 123
 Delayed(c) == c \in {"tuple", "stuple", "frozenset"}            \* R_REF only after the children: slot reserved, filled at the end
@@ -84,7 +89,7 @@ Flags == IF CanFlag THEN {FALSE, TRUE} ELSE {FALSE}
 
 Init == /\ cls \in {Cfg.classes[i] : i \in 1..Len(Cfg.classes)}
         /\ buf = <<>> /\ tok = <<>> /\ wstack = <<>> /\ wrefs = <<>> /\ wstr = <<>>
-        /\ left = Cfg.budget /\ done = FALSE
+        /\ left = Cfg.budget /\ done = FALSE /\ dupl = FALSE
 
 Top == wstack[Len(wstack)]
 Unord == \E i \in 1..Len(wstack) : wstack[i].kind \in {"set", "frozenset", "dict"}
@@ -107,16 +112,18 @@ OkHere(span) == /\ (Unord => \A i \in 1..Len(span) : Hashable(span[i]))
 (* account a complete child span in the parent; close parents that become complete *)
 RECURSIVE SettleF(_, _, _, _)
 SettleF(stk, refs, tk, force) ==      \* returns [stk, refs]; a dict frame is closed only by CloseDict (force)
-   IF stk = <<>> \/ stk[Len(stk)].rem > 0 \/ (stk[Len(stk)].kind = "dict" /\ ~force) THEN [stk |-> stk, refs |-> refs]
+   IF stk = <<>> \/ stk[Len(stk)].rem > 0 \/ (stk[Len(stk)].kind = "dict" /\ ~force) THEN [stk |-> stk, refs |-> refs, dup |-> FALSE]
    ELSE LET fr == stk[Len(stk)]
             rest == SubSeq(stk, 1, Len(stk) - 1)
             span == SubSeq(tk, fr.ts, Len(tk))
             refs2 == IF fr.slot # 0 THEN [refs EXCEPT ![fr.slot] = span] ELSE refs
+            isel == rest # <<>> /\ (rest[Len(rest)].kind \in {"set", "frozenset"} \/ (rest[Len(rest)].kind = "dict" /\ rest[Len(rest)].cnt % 2 = 0))
+            dup2 == isel /\ \E i \in 1..Len(rest[Len(rest)].elems) : SameValue(rest[Len(rest)].elems[i], span)
             rest2 == IF rest = <<>> THEN rest
                      ELSE [rest EXCEPT ![Len(rest)].rem = @ - 1, ![Len(rest)].cnt = @ + 1,
                                        ![Len(rest)].elems = IF rest[Len(rest)].kind \in {"set", "frozenset"} \/ (rest[Len(rest)].kind = "dict" /\ rest[Len(rest)].cnt % 2 = 0)
                                                             THEN Append(@, span) ELSE @]
-        IN SettleF(rest2, refs2, tk, FALSE)
+        IN LET r == SettleF(rest2, refs2, tk, FALSE) IN [stk |-> r.stk, refs |-> r.refs, dup |-> r.dup \/ dup2]
 Settle(stk, refs, tk) == SettleF(stk, refs, tk, FALSE)
 Child(stk, span) == IF stk = <<>> THEN stk
                     ELSE [stk EXCEPT ![Len(stk)].rem = @ - 1, ![Len(stk)].cnt = @ + 1,
@@ -132,7 +139,7 @@ EmitLeaf ==
        /\ tok' = Append(tok, l.t)
        /\ LET refs1 == IF f THEN Append(wrefs, <<l.t>>) ELSE wrefs
               r == Settle(Child(wstack, <<l.t>>), refs1, Append(tok, l.t))
-          IN wstack' = r.stk /\ wrefs' = r.refs
+          IN wstack' = r.stk /\ wrefs' = r.refs /\ dupl' = (dupl \/ r.dup)
   /\ left' = left - 1 /\ UNCHANGED <<cls, wstr, done>>
 
 EmitInterned2 ==                       \* Python 2 't': interned byte string, enters the string table
@@ -140,7 +147,7 @@ EmitInterned2 ==                       \* Python 2 't': interned byte string, en
        LET t == TB("str8", s) IN
        /\ OkHere(<<t>>)
        /\ buf' = buf \o <<116>> \o LE32(Len(s)) \o s /\ tok' = Append(tok, t) /\ wstr' = Append(wstr, s)
-       /\ LET r == Settle(Child(wstack, <<t>>), wrefs, Append(tok, t)) IN wstack' = r.stk /\ wrefs' = r.refs
+       /\ LET r == Settle(Child(wstack, <<t>>), wrefs, Append(tok, t)) IN wstack' = r.stk /\ wrefs' = r.refs /\ dupl' = (dupl \/ r.dup)
   /\ left' = left - 1 /\ UNCHANGED <<cls, done>>
 
 EmitStrRef ==                          \* Python 2 'R': back-reference into the string table
@@ -148,7 +155,7 @@ EmitStrRef ==                          \* Python 2 'R': back-reference into the 
        LET t == TB("str8", wstr[i]) IN
        /\ OkHere(<<t>>)
        /\ buf' = buf \o <<82>> \o LE32(i - 1) /\ tok' = Append(tok, t)
-       /\ LET r == Settle(Child(wstack, <<t>>), wrefs, Append(tok, t)) IN wstack' = r.stk /\ wrefs' = r.refs
+       /\ LET r == Settle(Child(wstack, <<t>>), wrefs, Append(tok, t)) IN wstack' = r.stk /\ wrefs' = r.refs /\ dupl' = (dupl \/ r.dup)
   /\ left' = left - 1 /\ UNCHANGED <<cls, wstr, done>>
 
 EmitRef ==                             \* 'r': back-reference to any earlier flagged, completed object
@@ -157,12 +164,12 @@ EmitRef ==                             \* 'r': back-reference to any earlier fla
        /\ wrefs[i] # <<>>                                     \* <<>> = reserved, not yet filled
        /\ OkHere(wrefs[i])
        /\ buf' = buf \o <<114>> \o LE32(i - 1) /\ tok' = tok \o wrefs[i]
-       /\ LET r == Settle(Child(wstack, wrefs[i]), wrefs, tok \o wrefs[i]) IN wstack' = r.stk /\ wrefs' = r.refs
+       /\ LET r == Settle(Child(wstack, wrefs[i]), wrefs, tok \o wrefs[i]) IN wstack' = r.stk /\ wrefs' = r.refs /\ dupl' = (dupl \/ r.dup)
   /\ left' = left - 1 /\ UNCHANGED <<cls, wstr, done>>
 
 OpenCont ==
   /\ Room /\ left > 1 /\ Len(wstack) < Cfg.depth
-  /\ \E c \in Containers, n \in {0, 1, 2}, f \in Flags :
+  /\ \E c \in Containers, n \in (IF Reduced THEN {1, 2} ELSE {0, 1, 2}), f \in Flags :
        /\ (Unord => c \in {"tuple", "stuple"})     \* inside a set/dict only hashable, ordered containers (no unordered
                                                     \* container inside another: a stated limitation of the reader)
        /\ (IF n = 0 THEN TRUE ELSE n <= left - 1)
@@ -174,20 +181,21 @@ OpenCont ==
               refs1 == IF f THEN Append(wrefs, <<>>) ELSE wrefs           \* reserved; filled when complete
               \* an empty container is complete at once; a dict is terminated by TYPE_NULL when it closes (see CloseDict)
               r == IF fr.rem = 0 /\ c # "dict" THEN Settle(Append(wstack, fr), refs1, tk2)
-                   ELSE [stk |-> Append(wstack, fr), refs |-> refs1]
+                   ELSE [stk |-> Append(wstack, fr), refs |-> refs1, dup |-> FALSE]
           IN /\ buf' = buf \o <<CodeOf(c) + (IF f THEN 128 ELSE 0)>> \o hdr
-             /\ tok' = tk2 /\ wstack' = r.stk /\ wrefs' = r.refs
+             /\ tok' = tk2 /\ wstack' = r.stk /\ wrefs' = r.refs /\ dupl' = (dupl \/ r.dup)
   /\ left' = left - 1 /\ UNCHANGED <<cls, wstr, done>>
 
 (* a dict whose pairs are all written is closed by TYPE_NULL ('0') *)
 CloseDict ==
   /\ ~done /\ wstack # <<>> /\ Top.kind = "dict" /\ Top.rem = 0
   /\ buf' = buf \o <<48>>
-  /\ LET r == SettleF(wstack, wrefs, tok, TRUE) IN wstack' = r.stk /\ wrefs' = r.refs
+  /\ LET r == SettleF(wstack, wrefs, tok, TRUE) IN wstack' = r.stk /\ wrefs' = r.refs /\ dupl' = (dupl \/ r.dup)
   /\ UNCHANGED <<cls, tok, wstr, left, done>>
 
-Finish == /\ ~done /\ wstack = <<>> /\ tok # <<>> /\ done' = TRUE
-          /\ UNCHANGED <<cls, buf, tok, wstack, wrefs, wstr, left>>
+(* a set (or the keys of a dict) whose elements are not distinct as values is not a stream a writer produces *)
+Finish == /\ ~done /\ wstack = <<>> /\ tok # <<>> /\ ~dupl /\ done' = TRUE
+          /\ UNCHANGED <<cls, buf, tok, wstack, wrefs, wstr, left, dupl>>
 
 Next == EmitLeaf \/ EmitInterned2 \/ EmitStrRef \/ EmitRef \/ OpenCont \/ CloseDict \/ Finish
 Spec == Init /\ [][Next]_vars
